@@ -182,6 +182,7 @@ def all_inds(Q):
 class Trace:
     def __init__(self):
         self.seq = 0
+        self.opseq = 0
         self.event_no = 0
         self.visits = {}       # ind id -> list of dict(node, seq, t, event)
         self.arrivals = {}     # ind id -> dict(node, cls, t)
@@ -234,14 +235,16 @@ class MonMixin:
     def attach_server(self, server, individual):
         Q = self.simulation
         _dispatch(Q, "pre_attach", self, server, individual)
+        Q.tr.opseq += 1
         Q.tr.attach.append(dict(node=self.id_number, server=server.id_number, ind=individual.id_number,
-                                t=Q.current_time, event=Q.tr.event_no, sobj=server))
+                                t=Q.current_time, event=Q.tr.event_no, sobj=server, seq=Q.tr.opseq))
         super().attach_server(server, individual)
 
     def detatch_server(self, server, individual):
         Q = self.simulation
+        Q.tr.opseq += 1
         Q.tr.detach.append(dict(node=self.id_number, server=server.id_number, ind=individual.id_number,
-                                t=Q.current_time, event=Q.tr.event_no))
+                                t=Q.current_time, event=Q.tr.event_no, seq=Q.tr.opseq))
         Q.tr.freed_now(self.id_number, "detach")
         super().detatch_server(server, individual)
 
